@@ -5,6 +5,7 @@
    Gen/Src_parallel.v is regenerated from annet/parallel.py on every run. *)
 From Coq Require Import List Bool Arith Permutation.
 From Annet Require Import Model.Pool Spec.P_C12 Proofs.PoolProofs Proofs.PoolProgress Gen.Src_parallel.
+From Annet Require Import Model.PoolSession Spec.P_C12x Proofs.PoolSessionProofs.
 Import ListNotations.
 
 (* The assumed runtime law: a dying worker's exit code becomes visible to the parent only when its
@@ -203,4 +204,164 @@ Example C12_example_predicate :
   P_C12 ([0; 1], true, std_f []) (Completed [(0, VOk 3); (1, VOk 11)]) = false /\
   P_C12 ([0; 1], false, std_f [1]) (Raised 1 [(0, VOk 3)]) = true /\
   P_C12 ([0; 1], true, std_f [1]) (Raised 1 [(0, VOk 3)]) = false.
+Proof. vm_compute. repeat split; reflexivity. Qed.
+
+(* ================================================================================================ *)
+(* Around the protocol: invoke_retry (what a worker computes for an id out of the attempts of the task
+   function), payloads that are lists of yielded values, callbacks, and several pools in one process.
+   Model: Model/PoolSession.v; predicate: Spec/P_C12x.v; proofs: Proofs/PoolSessionProofs.v. *)
+
+(* --- invoke_retry -------------------------------------------------------------------------------- *)
+
+(* the payload is what the first invocation that does not die with a network error computes (the value,
+   for a generator the list of yielded values, or the exception it raises), whenever that invocation is
+   among the first net_retry + 1 - for every task, every net_retry, every number of leading resets *)
+Theorem C12_retry_delivers :
+  forall net_retry att n x,
+  (forall j, j < n -> is_net (att j)) -> settle (att n) = ADone x -> n <= net_retry ->
+  invoke_retry net_retry att = x.
+Proof. exact invoke_retry_done. Qed.
+Print Assumptions C12_retry_delivers.
+
+(* ... else the failure: net_retry + 1 network errors in a row give the last of them *)
+Theorem C12_retry_exhausted :
+  forall net_retry att e,
+  (forall j, j < net_retry -> is_net (att j)) -> settle (att net_retry) = ANet e ->
+  invoke_retry net_retry att = XFail e.
+Proof. exact invoke_retry_exhausted. Qed.
+Print Assumptions C12_retry_exhausted.
+
+(* the two cases are exhaustive *)
+Theorem C12_retry_total :
+  forall net_retry att,
+  (exists n x, n <= net_retry /\ (forall j, j < n -> is_net (att j)) /\ settle (att n) = ADone x /\
+               invoke_retry net_retry att = x) \/
+  (exists e, (forall j, j <= net_retry -> is_net (att j)) /\ settle (att net_retry) = ANet e /\
+             invoke_retry net_retry att = XFail e).
+Proof. exact invoke_retry_cases. Qed.
+Print Assumptions C12_retry_total.
+
+(* whichever attempt succeeds, a generator has been consumed: the payload is never a generator object *)
+Theorem C12_retry_materialised :
+  forall net_retry att,
+  invoke_retry net_retry att <> XOk PLazy /\ invoke_retry net_retry att <> XOk POther /\
+  invoke_retry net_retry att <> XFailOther.
+Proof. exact invoke_retry_materialised. Qed.
+Print Assumptions C12_retry_materialised.
+
+(* the task of the correspondence runs, closed form: k leading resets are absorbed iff k <= net_retry *)
+Theorem C12_retry_std_task :
+  forall gen raising flaky n i,
+  eff_f n (std_task gen raising flaky) i =
+  if Nat.leb (lookup i flaky) n then std_value gen raising i else XFail (1000 + 11 * i + n).
+Proof. exact std_task_retry. Qed.
+Print Assumptions C12_retry_std_task.
+
+(* --- the extended predicate ----------------------------------------------------------------------- *)
+
+(* on numbers-only payloads P_C12x is P_C12 *)
+Theorem C12_extended_predicate_conservative :
+  forall ids tol f o,
+  P_C12x (ids, tol, fun i => embed (f i)) (embed_outcome o) = P_C12 (ids, tol, f) o.
+Proof. exact P_C12x_conservative. Qed.
+Print Assumptions C12_extended_predicate_conservative.
+
+Theorem C12_extended_predicate_meaning :
+  forall ids tol g d,
+  P_C12x (ids, tol, g) (XCompleted d) = true -> Permutation d (map (fun i => (i, g i)) ids).
+Proof. exact P_C12x_completed_spec. Qed.
+Print Assumptions C12_extended_predicate_meaning.
+
+(* the pool protocol delivers, for every id, what its worker computed ([g id], e.g. eff_f net_retry task):
+   every outcome of the protocol model, run on the success/failure shadow of g and read with the payloads
+   g, satisfies the extended predicate *)
+Theorem C12_holds_extended :
+  forall cfg g, (forall i, c_f cfg i = shadow (g i)) ->
+  put_before_exit cfg -> wf_cfg cfg = true -> brk_safe (c_brk cfg) = true ->
+  forall s o, reachable cfg s -> outcome_of_state s = Some o ->
+  P_C12x (c_ids cfg, c_tol cfg, g) (lift_outcome g o) = true.
+Proof. exact pool_holds_x. Qed.
+Print Assumptions C12_holds_extended.
+
+(* the single-process way with retry and callbacks, for an object whose callbacks know the submitted ids
+   (PoolProgressLogger is built from the fqdn table of the devices of its own run) *)
+Theorem C12_sequential_extended :
+  forall o ids tol t,
+  obj_covers ids o = true -> P_C12x (ids, tol, eff_f (o_retry o) t) (run_obj o ids tol t) = true.
+Proof. exact run_obj_holds. Qed.
+Print Assumptions C12_sequential_extended.
+
+(* --- several pools in one process ----------------------------------------------------------------- *)
+
+(* what the pools of object p deliver is determined by the operations on p alone: it does not depend on
+   the callbacks registered on, the tuning of, or the runs of any other Parallel object of the process *)
+Theorem C12_pool_independence :
+  forall p ops, of_obj p (session new_store ops) = session new_store (filter (on_obj p) ops).
+Proof. intros p ops. apply session_frame. reflexivity. Qed.
+Print Assumptions C12_pool_independence.
+
+(* every run of a session satisfies the predicate for what was submitted to its own object *)
+Theorem C12_session_run_holds :
+  forall pre p ids tol tk post,
+  obj_covers ids (obj_after new_obj p pre) = true ->
+  exists l1 l2 o,
+    session new_store (pre ++ ORun p ids tol tk :: post) = l1 ++ (p, o) :: l2 /\
+    o = run_obj (obj_after new_obj p pre) ids tol tk /\
+    P_C12x (ids, tol, eff_f (o_retry (obj_after new_obj p pre)) tk) o = true.
+Proof. exact session_run_holds. Qed.
+Print Assumptions C12_session_run_holds.
+
+(* a pool nobody registered a callback on or tuned behaves like the first pool of a process (no callbacks,
+   net_retry = 3), whatever callbacks and tunings the pools before it got *)
+Theorem C12_fresh_pool_after_others :
+  forall pre p ids tol tk post,
+  (forall x, In x pre -> match x with ORun _ _ _ _ => True | _ => op_obj x <> p end) ->
+  exists l1 l2 o,
+    session new_store (pre ++ ORun p ids tol tk :: post) = l1 ++ (p, o) :: l2 /\
+    o = run_obj new_obj ids tol tk /\
+    P_C12x (ids, tol, eff_f 3 tk) o = true.
+Proof. exact session_fresh_holds. Qed.
+Print Assumptions C12_fresh_pool_after_others.
+
+(* --- non-vacuity ---------------------------------------------------------------------------------- *)
+
+(* a generator task; id 2 is reset 3 times (= net_retry, succeeds on the last permitted attempt), id 4 once,
+   id 5 four times (exhausted: the failure is the reset of attempt 3), id 6 raises *)
+Example C12_example_retry :
+  map (eff_f 3 (std_task true [6] [(2, 3); (4, 1); (5, 4)])) [1; 2; 4; 5; 6] =
+  [XOk (PList [10; 1]); XOk (PList [17; 2]); XOk (PList [31; 4]); XFail 1058; XFail 83] /\
+  eff_f 0 (std_task false [] []) 2 = XOk (PInt 17) /\
+  eff_f 0 (std_task false [] [(2, 1)]) 2 = XFail 1022 /\
+  is_net (std_task true [] [(2, 3)] 2 2) /\ ~ is_net (std_task true [] [(2, 3)] 2 3).
+Proof.
+  repeat split; try reflexivity.
+  - exists 1024. reflexivity.
+  - intros [e H]. discriminate.
+Qed.
+
+(* pool 0 gets a progress callback over its ids and net_retry = 1, then pool 1 (nothing registered) runs
+   other ids whose task needs 3 retries: pool 1 delivers everything with the right payloads *)
+Example C12_example_session :
+  let t0 := std_task true [] [(2, 1)] in
+  let t1 := std_task true [11] [(10, 3)] in
+  session new_store [OAdd 0 false (CbTable [1; 2; 3]); OAdd 0 true (CbTable [1; 2; 3]); OTune 0 1;
+                     ORun 0 [1; 2; 3] true t0; ORun 1 [10; 11] true t1] =
+  [(0, XCompleted [(1, XOk (PList [10; 1])); (2, XOk (PList [17; 2])); (3, XOk (PList [24; 3]))]);
+   (1, XCompleted [(10, XOk (PList [73; 10])); (11, XFail 148)])] /\
+  obj_covers [1; 2; 3] (obj_after new_obj 0 [OAdd 0 false (CbTable [1; 2; 3]); OAdd 0 true (CbTable [1; 2; 3]);
+                                            OTune 0 1]) = true /\
+  P_C12_session
+    [(([1; 2; 3], true, eff_f 1 t0),
+      XCompleted [(1, XOk (PList [10; 1])); (2, XOk (PList [17; 2])); (3, XOk (PList [24; 3]))]);
+     (([10; 11], true, eff_f 3 t1), XCompleted [(10, XOk (PList [73; 10])); (11, XFail 148)])] = true.
+Proof. vm_compute. repeat split; reflexivity. Qed.
+
+(* what the predicate rejects: an unconsumed generator as payload, a computed value delivered as a failure,
+   and - the guard of C12_sequential_extended is needed - what a callback of ANOTHER pool's ids does *)
+Example C12_example_extended_predicate :
+  let g := eff_f 3 (std_task true [] [(2, 3)]) in
+  P_C12x ([2], true, g) (XCompleted [(2, XOk (PList [17; 2]))]) = true /\
+  P_C12x ([2], true, g) (XCompleted [(2, XOk PLazy)]) = false /\
+  P_C12x ([2], true, g) (XCompleted [(2, XFailOther)]) = false /\
+  run_obj (PObj [] [CbTable [1; 3]] 3) [2] true (std_task true [] [(2, 3)]) = XCompleted [(2, XFailOther)].
 Proof. vm_compute. repeat split; reflexivity. Qed.
